@@ -6,12 +6,15 @@
 (* every well-formed fix of <= MaxEdits edits over it -- including         *)
 (* insertions at the same point, empty replacements (deletions), touching  *)
 (* edits, insertions at either end of a replacement -- with new texts of   *)
-(* length 0, 1 and 2 that identify the edit.  Three-edit fixes are taken   *)
-(* over files of size <= MaxSize3.  TLC explores every application order.  *)
+(* length 0, 1 and 2 that identify the edit.  The splice depends on the    *)
+(* file's size only: two-edit fixes are taken over sizes <= MaxSize2,      *)
+(* three-edit fixes over sizes <= MaxSize3 (7 bytes already realise every  *)
+(* zero/non-zero pattern of the 7 gaps around 3 edits).  TLC explores      *)
+(* every application order.                                                *)
 (***************************************************************************)
 EXTENDS Fixes
 
-CONSTANTS MaxLines, MaxCols, MaxEdits, MaxSize3, Texts3
+CONSTANTS MaxLines, MaxCols, MaxEdits, MaxSize2, MaxSize3, Texts3
 
 LineTables == UNION { [1..n -> 0..MaxCols] : n \in 1..MaxLines }
 Sizes      == { Size(lt) : lt \in LineTables }
@@ -25,7 +28,7 @@ NT(i, k)    == IF k <= 2 THEN NewTexts(i) ELSE { t \in NewTexts(i) : Len(t) < Te
 \* every in-bounds edit over a file of size n
 E(n, i, k)  == UNION { { [s |-> a, e |-> b, new |-> nt] : b \in a..n, nt \in NT(i, k) } : a \in 0..n }
 
-SizeBound(k) == IF k <= 2 THEN MaxLines * (MaxCols + 1) ELSE MaxSize3
+SizeBound(k) == IF k <= 1 THEN MaxLines * (MaxCols + 1) ELSE IF k = 2 THEN MaxSize2 ELSE MaxSize3
 
 Init ==
   \E n \in Sizes : \E k \in 0..MaxEdits :
